@@ -22,8 +22,8 @@
 #include "etermsim.h"
 
 #define CQ_MAXP 4			/* ports */
-#define CQ_MAXF 5			/* frequencies */
-#define CQ_MAXSTD 40			/* standards per calibration */
+#define CQ_MAXF 10			/* frequencies */
+#define CQ_MAXSTD 64			/* standards per calibration */
 #define CQ_MAXUNK 64			/* unknowns per system */
 
 enum { CQ_G = 'g', CQ_Z = 'z', CQ_U = 'u' };
